@@ -187,3 +187,100 @@ def run(coro_fn):
 
 def random_mask(rng):
     return bytes(rng.randrange(256) for _ in range(4))
+
+
+# ------------------------------------------------------------------ a whole server-side session: real Application + WebSocketHandler over the fake transport
+HANDSHAKE = (b"GET /ws HTTP/1.1\r\nHost: example.com\r\nUpgrade: websocket\r\nConnection: Upgrade\r\nSec-WebSocket-Key: dGhlIHNhbXBsZSBub25jZQ==\r\n"
+             b"Sec-WebSocket-Version: 13\r\n%s\r\n")
+
+
+def session(steps, settings=None, extra_request_headers=b"", handler_attrs=None, on_message=None):
+    """steps: list of
+        ("peer", bytes)                 bytes from the peer (frames)
+        ("eof",)                        the peer disconnects
+        ("close", code, reason)         the application calls handler.close(code, reason)
+        ("write", message)              the application calls handler.write_message
+        ("ping", data)                  the application calls handler.ping
+        ("advance", seconds)            virtual time passes (in steps of <= 0.25 s so that timers fire in order)
+    Returns dict(events=[...handler events and write outcomes in order...], frames=[decoded frames the server sent after the handshake], closed_at=step index or None,
+                 status=handshake status line, logs=[error records])"""
+    import tornado.web as W
+    import tornado.websocket as WS
+    from . import httpserver as S
+    events = []
+    box = {}
+
+    class Handler(WS.WebSocketHandler):
+        def open(self):
+            box["h"] = self
+            events.append(("open",))
+
+        def on_message(self, message):
+            events.append(("message", message))
+            if on_message is not None:
+                return on_message(self, message)
+
+        def on_close(self):
+            events.append(("on_close", self.close_code, self.close_reason))
+
+        def on_ping(self, data):
+            events.append(("on_ping", data))
+
+        def on_pong(self, data):
+            events.append(("on_pong", data))
+
+        def check_origin(self, origin):
+            return True
+    for k, v in (handler_attrs or {}).items():
+        setattr(Handler, k, v)
+    marks = {}
+
+    async def after(v, stream, server, res):
+        head_len = len(bytes(stream.sent))
+        marks["head"] = bytes(stream.sent)
+        for i, st in enumerate(steps):
+            kind = st[0]
+            h = box.get("h")
+            try:
+                if kind == "peer":
+                    if not stream.closed():
+                        stream.feed(st[1])
+                        stream.pump()
+                elif kind == "eof":
+                    if not stream.closed():
+                        stream.feed(EOF)
+                        stream.pump()
+                elif kind == "close":
+                    h.close(*st[1:])
+                    events.append(("closed-locally",) + tuple(st[1:]))
+                elif kind == "write":
+                    try:
+                        h.write_message(st[1], binary=isinstance(st[1], bytes))
+                        events.append(("write-accepted", st[1]))
+                    except WS.WebSocketClosedError:
+                        events.append(("write-refused", "WebSocketClosedError"))
+                elif kind == "ping":
+                    try:
+                        h.ping(st[1])
+                        events.append(("ping-accepted", st[1]))
+                    except WS.WebSocketClosedError:
+                        events.append(("ping-refused", "WebSocketClosedError"))
+                elif kind == "advance":
+                    left = st[1]
+                    while left > 1e-9:
+                        d = min(0.25, left)
+                        v.advance(d)
+                        left -= d
+                        await v.tick(3)
+                        stream.pump()
+            except Exception as e:     # noqa: B902
+                events.append(("step-raised", kind, type(e).__name__, str(e)[:80]))
+            await v.tick(4)
+            stream.pump()
+            await v.tick(2)
+            events.append(("after-step", i, "closed" if stream.closed() else "open", len(bytes(stream.sent)) - head_len))
+        marks["tail"] = bytes(stream.sent)[head_len:]
+    res = S.run_server([HANDSHAKE % extra_request_headers], make_app=lambda r: W.Application([(r"/ws", Handler)], **(settings or {})), eof=True, after=after)
+    frames, rest = dec_frames(marks.get("tail", b""))
+    head = marks.get("head", b"")
+    return {"events": events, "frames": frames, "rest": rest, "status": head.split(b"\r\n", 1)[0], "head": head, "logs": [r for r in res.logs if r[1] in ("ERROR", "CRITICAL")], "final_closed": res.closed}
